@@ -345,3 +345,182 @@ KINDS_ONLY = {
     "verifyEcdsaSecp256k1Signature": ["bytes", "bytes", "bytes"], "verifySchnorrSecp256k1Signature": ["bytes", "bytes", "bytes"],
     "serialiseData": ["data"],
 }
+
+# Per-builtin input regions (each a function from the spec-level arguments to a list of z3 assumptions).  The union of the
+# regions is the part of the domain that is claimed; what lies outside is stated in the evidence bounds.
+REGIONS = {
+    "integerToByteString": [lambda e, w, n: [z3.Or(w < 0, w > 8192)], lambda e, w, n: [w >= 0, w <= 3, n < (1 << 24)]],
+    "replicateByte": [lambda n, b: [z3.Or(n < 0, n > 8192)], lambda n, b: [n >= 0, n <= 4]],
+}
+
+
+# ----------------------------------------------------------------------------------------------
+# Bitwise and conversion builtins (CIP-121/122/123).  'bytesN' arguments are python lists of z3 BitVec(8)
+# (enumerated lengths); results are byte sequences.
+
+
+def _seq(bs):
+    if not bs:
+        return z3.Empty(ByteSeq)
+    us = [z3.Unit(b) for b in bs]
+    return z3.Concat(*us) if len(us) > 1 else us[0]
+
+
+def _big(bs):
+    return z3.Concat(*bs) if len(bs) > 1 else bs[0]
+
+
+def _split(big, n):
+    return [z3.Extract(8 * (n - i) - 1, 8 * (n - i - 1), big) for i in range(n)]
+
+
+@spec("lessThanByteString", "bytesN", "bytesN")
+def _(sem, a, b):
+    return [(T, ("bool", bytes_lex_lt(a, b)))]
+
+
+@spec("lessThanEqualsByteString", "bytesN", "bytesN")
+def _(sem, a, b):
+    return [(T, ("bool", z3.Not(bytes_lex_lt(b, a))))]
+
+
+@spec("byteStringToInteger", "bool", "bytesN")
+def _(sem, e, bs):
+    be = z3.IntVal(0)
+    for b in bs:
+        be = be * 256 + z3.BV2Int(b, False)
+    le = z3.IntVal(0)
+    for b in reversed(bs):
+        le = le * 256 + z3.BV2Int(b, False)
+    return [(T, ("int", z3.If(e, be, le)))]
+
+
+@spec("integerToByteString", "bool", "int", "int")
+def _(sem, e, w, n):
+    # region 1 (w outside 0..8192) always fails; region 2: 0 <= w <= 3 and n < 2^24 (see REGIONS)
+    cases = [(z3.Or(w < 0, w > 8192), FAIL), (z3.And(w >= 0, w <= 8192, n < 0), FAIL)]
+    b24 = z3.Int2BV(n, 24)
+    digits = [z3.Extract(23, 16, b24), z3.Extract(15, 8, b24), z3.Extract(7, 0, b24)]  # big-endian, 3 digits
+    for L in range(0, 4):
+        inL = (n == 0) if L == 0 else z3.And(n >= 256 ** (L - 1), n < 256 ** L)
+        sig = digits[3 - L:]  # minimal big-endian digits
+        for wv in range(0, 4):
+            cond = z3.And(w == wv, inL, n >= 0)
+            if wv != 0 and L > wv:
+                cases.append((cond, FAIL))
+                continue
+            width = wv if wv != 0 else L
+            pad = [z3.BitVecVal(0, 8)] * (width - L)
+            be = pad + sig
+            le = list(reversed(sig)) + pad
+            cases.append((z3.And(cond, e), ("bytes", _seq(be))))
+            cases.append((z3.And(cond, z3.Not(e)), ("bytes", _seq(le))))
+    return cases
+
+
+def _bitop(op, ident):
+    def f(sem, pad, a, b):
+        n, m = len(a), len(b)
+        short = min(n, m)
+        both = [op(a[i], b[i]) for i in range(short)]
+        longer = a if n >= m else b
+        padded = both + list(longer[short:])
+        return [(pad, ("bytes", _seq(padded))), (z3.Not(pad), ("bytes", _seq(both)))]
+    return f
+
+
+spec("andByteString", "bool", "bytesN", "bytesN")(_bitop(lambda x, y: x & y, 0xFF))
+spec("orByteString", "bool", "bytesN", "bytesN")(_bitop(lambda x, y: x | y, 0))
+spec("xorByteString", "bool", "bytesN", "bytesN")(_bitop(lambda x, y: x ^ y, 0))
+
+
+@spec("complementByteString", "bytesN")
+def _(sem, a):
+    return [(T, ("bytes", _seq([~b for b in a])))]
+
+
+@spec("readBit", "bytesN", "int")
+def _(sem, bs, i):
+    n = len(bs)
+    if n == 0:
+        return [(T, FAIL)]
+    ok = z3.And(i >= 0, i < 8 * n)
+    big = _big(bs)
+    bit = z3.Extract(0, 0, z3.LShR(big, z3.Int2BV(i, 8 * n))) == 1
+    return [(z3.Not(ok), FAIL), (ok, ("bool", bit))]
+
+
+@spec("writeBits", "bytesN", "list:int", "bool")
+def _(sem, bs, idxs, v):
+    n = len(bs)
+    ixs = [x[1] for x in idxs[1]]
+    ok = z3.And([z3.And(i >= 0, i < 8 * n) for i in ixs] + [T])
+    if n == 0:
+        return [(z3.Not(ok), FAIL), (ok, ("bytes", _seq([])))]
+    big = _big(bs)
+    out_bits = []
+    for p in range(8 * n - 1, -1, -1):  # p = bit position from the least significant end
+        hit = z3.Or([i == p for i in ixs] + [z3.BoolVal(False)])
+        orig = z3.Extract(p, p, big)
+        out_bits.append(z3.If(hit, z3.If(v, z3.BitVecVal(1, 1), z3.BitVecVal(0, 1)), orig))
+    res = z3.Concat(*out_bits) if len(out_bits) > 1 else out_bits[0]
+    return [(z3.Not(ok), FAIL), (ok, ("bytes", _seq(_split(res, n))))]
+
+
+@spec("replicateByte", "int", "int")
+def _(sem, n, b):
+    cases = [(z3.Or(n < 0, n > 8192), FAIL), (z3.And(n >= 0, n <= 8192, z3.Or(b < 0, b > 255)), FAIL)]
+    for k in range(0, 5):
+        cases.append((z3.And(n == k, b >= 0, b <= 255), ("bytes", _seq([z3.Int2BV(b, 8)] * k))))
+    return cases
+
+
+@spec("shiftByteString", "bytesN", "int")
+def _(sem, bs, k):
+    n = len(bs)
+    if n == 0:
+        return [(T, ("bytes", _seq([])))]
+    big = _big(bs)
+    bits = 8 * n
+    zero = z3.BitVecVal(0, bits)
+    left = z3.If(k >= bits, zero, big << z3.Int2BV(k, bits))
+    right = z3.If(-k >= bits, zero, z3.LShR(big, z3.Int2BV(-k, bits)))
+    return [(T, ("bytes", _seq(_split(z3.If(k >= 0, left, right), n))))]
+
+
+@spec("rotateByteString", "bytesN", "int")
+def _(sem, bs, k):
+    n = len(bs)
+    if n == 0:
+        return [(T, ("bytes", _seq([])))]
+    big = _big(bs)
+    bits = 8 * n
+    r = k % bits  # mathematical modulus: 0 <= r < bits, also for negative k
+    return [(T, ("bytes", _seq(_split(z3.RotateLeft(big, z3.Int2BV(r, bits)), n))))]
+
+
+@spec("countSetBits", "bytesN")
+def _(sem, bs):
+    tot = z3.IntVal(0)
+    for b in bs:
+        for i in range(8):
+            tot = tot + z3.If(z3.Extract(i, i, b) == 1, 1, 0)
+    return [(T, ("int", tot))]
+
+
+@spec("findFirstSetBit", "bytesN")
+def _(sem, bs):
+    n = len(bs)
+    res = z3.IntVal(-1)
+    if n:
+        big = _big(bs)
+        for p in range(8 * n - 1, -1, -1):
+            res = z3.If(z3.Extract(p, p, big) == 1, z3.IntVal(p), res)
+    return [(T, ("int", res))]
+
+
+REGIONS.update({
+    # shifts/rotations by amounts outside the 64-bit range are outside the claim (the semantics variants disagree on them)
+    "shiftByteString": [lambda bs, k: [k > -(1 << 63), k < (1 << 63)]],
+    "rotateByteString": [lambda bs, k: [k > -(1 << 63), k < (1 << 63)]],
+})
